@@ -9,7 +9,7 @@ structure ExecReq where
   file : File
   matchLists : List (List QMatch)
   merged : List QMatch
-  globals : List (String × Val)
+  globals : GlobalsM
   locAttr : Option String
   varAttr : Option String
   matchAttr : Option String
@@ -20,14 +20,21 @@ structure ExecReq where
 
 /-- `(exec mode file (matches...) (merged...) (globals) (debug l v m) cancelAt graph oracle fuel)` -/
 def execReqOfSexp : List Sexp → Option ExecReq
-  | [.atom mode, file, .list ms, .list merged, .list globals, .list [.atom "debug", l, v, m], cancel, g0, orc, fuel] => do
+  | [.atom mode, file, .list ms, .list merged, globals, .list [.atom "debug", l, v, m], cancel, g0, orc, fuel] => do
     let file ← fileOfSexp file
     let matchLists ← ms.mapM fun
       | .list xs => xs.mapM matchOfSexp
       | _ => none
     let merged ← merged.mapM matchOfSexp
-    let globals ← globals.mapM fun
+    let layerOf := fun (kvs : List Sexp) => kvs.mapM fun
       | .list [.str k, v] => (Val.ofSexp v).map fun v => (k, v)
+      | _ => none
+    -- `(layers inner outer ...)` = nested `Variables`; a plain list = a single set
+    let globals ← match globals with
+      | .list (.atom "layers" :: ls) => ls.mapM fun
+        | .list kvs => layerOf kvs
+        | _ => none
+      | .list kvs => (layerOf kvs).map fun l => [l]
       | _ => none
     pure { lazy := mode == "lazy", file, matchLists, merged, globals,
            locAttr := ← optStr l, varAttr := ← optStr v, matchAttr := ← optStr m,
@@ -45,10 +52,10 @@ def handleExec (t : Tree) (args : List Sexp) : Sexp :=
   | none => .list [.atom "bad-request"]
   | some r =>
     if r.lazy then
-      runResultSexp (Lazy.run r.file t r.oracle.toOracle [r.globals] r.locAttr r.varAttr r.matchAttr
+      runResultSexp (Lazy.run r.file t r.oracle.toOracle r.globals r.locAttr r.varAttr r.matchAttr
         r.cancelAt r.fuel 100000 r.merged r.graph0)
     else
-      runResultSexp (Strict.run r.file t r.oracle.toOracle [r.globals] r.locAttr r.varAttr r.matchAttr
+      runResultSexp (Strict.run r.file t r.oracle.toOracle r.globals r.locAttr r.varAttr r.matchAttr
         r.cancelAt r.fuel r.matchLists r.graph0)
 
 end Driver
